@@ -2,6 +2,7 @@ package main
 
 import (
 	"fmt"
+	"go/types"
 	"sort"
 	"strings"
 
@@ -313,6 +314,7 @@ func checkC06(p *Program, r *Report) {
 	}
 	sort.Slice(under, func(i, j int) bool { return under[i].String() < under[j].String() })
 	checkMaskTrim(p, r, "C06.trim", under)
+	checkArrayBound(p, r, "C06.array-bound")
 	checkLegacyEmptiness(p, r, under)
 	var conv []*ssa.Function
 	for _, f := range under {
@@ -419,6 +421,7 @@ func init() {
 	controlFns["C06"] = func(fx *Program, r *Report) {
 		controlMaskTrim(fx, r, "C06.trim")
 		controlLostCarry(fx, r, "C06.carry")
+		controlArrayBound(fx, r, "C06.array-bound")
 	}
 }
 
@@ -682,6 +685,67 @@ func checkC07(p *Program, r *Report) {
 					}
 				}
 			}
+		}
+	}
+	// derived state: when the record of derived constants caches facts about the loaded message that
+	// lookups branch on (bool flags with one defining comparison, see E11), a rejected load that replaces
+	// st.inner must replace that record too — otherwise the flags describe the previous content
+	if flags := derivedFlags(p); len(flags) > 0 {
+		holder := ""
+		if st := p.NamedType(p.Trie, "SlimTrie"); st != nil {
+			if sst, ok := st.Underlying().(*types.Struct); ok {
+				for i := 0; i < sst.NumFields(); i++ {
+					ft := sst.Field(i).Type()
+					if pt, ok := ft.Underlying().(*types.Pointer); ok {
+						ft = pt.Elem()
+					}
+					if rs, ok := ft.Underlying().(*types.Struct); ok {
+						for j := 0; j < rs.NumFields(); j++ {
+							if rs.Field(j).Name() == "ShortMask" {
+								holder = sst.Field(i).Name()
+							}
+						}
+					}
+				}
+			}
+		}
+		// only flags that cache the emptiness test itself: every other flag is read behind the
+		// emptiness test of the message (C10.empty), which a cleared trie fails first
+		var names []string
+		for n, def := range flags {
+			if strings.Contains(def.String(), "NodeTypeBM") {
+				names = append(names, n)
+			}
+		}
+		sort.Strings(names)
+		var stale []string
+		if holder != "" && len(names) > 0 {
+			for _, v := range all {
+				for _, path := range vt.pathsOf(v) {
+					if !strings.HasPrefix(path.ret, "err") {
+						continue
+					}
+					iReset := eventIndex(path, func(e vevent) bool { return e.kind == "reset" && e.detail == "inner" })
+					if iReset < 0 {
+						continue
+					}
+					refreshed := false
+					for i, e := range path.events {
+						if i > iReset && (e.kind == "store" || e.kind == "init" || e.kind == "reset") && strings.Contains(e.detail, holder) {
+							refreshed = true
+						}
+					}
+					if !refreshed {
+						stale = append(stale, fmt.Sprintf("version %q: %s", v, path.String()))
+					}
+				}
+			}
+		}
+		stale = dedupStrings(sortStr(stale))
+		if len(names) > 0 {
+			r.Check(holder != "" && len(stale) == 0, "error paths leave the cached emptiness flag consistent with the cleared trie", p.Pos(un.Pos()),
+				"st."+holder+" (flags "+strings.Join(names, ",")+") is replaced on every rejected load",
+				"a rejected load replaces st.inner but leaves st."+holder+", which caches "+strings.Join(names, ",")+" for the lookups, describing the previous content: "+strings.Join(firstN(stale, 2), "; "))
 		}
 	}
 	clrBad = dedupStrings(sortStr(clrBad))
